@@ -58,7 +58,7 @@ def split_points(text):
     """Character offsets at which a continuation may be placed: starts of
     tokens (except the first).  Also returns string-literal interiors."""
     spans = lex_spans(text)
-    pts = [a for (_, _, a, _) in spans[1:]]
+    pts = [a for k, (_, _, a, _) in enumerate(spans) if k > 0 and spans[k - 1][1] != "K"]
     strs = [(a, b) for (_, cls, a, b) in spans if cls == "S" and b - a >= 4]
     return pts, strs
 
